@@ -1,9 +1,9 @@
-from textwrap import indent
 
 from pydbml.classes import Enum, EnumItem
 from pydbml.renderer.dbml.default.renderer import DefaultDBMLRenderer
 from pydbml.renderer.dbml.default.utils import comment_to_dbml, note_option_to_dbml
 from pydbml.renderer.sql.default.utils import get_full_name_for_sql
+from pydbml.tools import indent_lines as indent
 
 
 @DefaultDBMLRenderer.renderer_for(Enum)
